@@ -288,9 +288,11 @@ class RelayWorld(object):
         clause, prop = 'duplicate-write', 'C07'
       else:
         clause, prop = 'wire-value-differs', 'C15'
-      self.ctx.violation(prop, clause, self.proto_kind,
-                         '%s wrote (%r, %r); next accepted-but-unwritten datapoint is (%r, %r)'
-                         % (d.dest, m, dp, exp[1], exp[2]))
+      for pr in sorted(set([prop, 'C15'])):
+        # C15: splitting the queue into messages never merges, reorders or drops datapoints
+        self.ctx.violation(pr, clause, self.proto_kind,
+                           '%s wrote (%r, %r); next accepted-but-unwritten datapoint is (%r, %r)'
+                           % (d.dest, m, dp, exp[1], exp[2]))
       if later:
         d.unwritten_start = later[0] + 1
       return
